@@ -38,7 +38,14 @@ def check_dispatch(ctx: Ctx, rule: str = 'R11.1') -> None:
     need = [CANCELLED, f'{EXE}.HandlerChildrenRetry', f'{EXE}.TemporaryError', f'{EXE}.HandlerTimeoutError', f'{EXE}.HandlerRetriesError',
             f'{EXE}.PermanentError', 'Exception']
     for c in need:
-        ctx.ob(rule, f'execute_handler_once: the except chain has an arm for {_short(c)}', c in flat, loc=f.loc(t),
+        # an arm of its own, or -- for the two limit errors -- the arm of their superclass PermanentError (same outcome by table R11.2: final, exception=e),
+        # provided no earlier arm would take them first
+        own = c in flat
+        via_super = False
+        if not own and c in (f'{EXE}.HandlerTimeoutError', f'{EXE}.HandlerRetriesError'):
+            first = next((k for k in flat if repo.is_subclass(c, k)), None)
+            via_super = first == f'{EXE}.PermanentError'
+        ctx.ob(rule, f'execute_handler_once: the except chain has an arm for {_short(c)}', own or via_super, loc=f.loc(t),
                construct=construct(f, f'dispatch:arm:{_short(c)}'))
     # hierarchy facts the order relies on (read from the source)
     for sub, sup in ((f'{EXE}.HandlerChildrenRetry', f'{EXE}.TemporaryError'), (f'{EXE}.HandlerTimeoutError', f'{EXE}.PermanentError'),
